@@ -393,6 +393,42 @@ fn family_offset_grids(ctx: &Ctx, which: Which, st: &Stats) -> u64 {
     n
 }
 
+/// Count words beyond the number of known tags (the decoder cannot know that before it has read
+/// the tag words): for each count c the input holds w words after it, filled so that the would-be
+/// offset words are all acceptable (zero / ascending multiples of 4) and the would-be tag words are
+/// zero, one known tag repeated, or ascending known tags cycling.
+fn family_big_counts(ctx: &Ctx, which: Which, st: &Stats) -> u64 {
+    let mut n = 0u64;
+    let known: Vec<u32> = codec::known_tags().iter().map(|t| u32::from_le_bytes(*t)).collect();
+    let counts: Vec<usize> = (2..=40).chain([63, 64, 65, 127, 128, 129, 255, 256, 257, 1023, 1024, 1025, 4096]).collect();
+    for &c in &counts {
+        let mut ws: Vec<usize> = vec![c.saturating_sub(2), c - 1, c, c + 1, 2 * c - 2, 2 * c - 1, 2 * c, 2 * c + 3];
+        ws.retain(|w| *w <= 9000);
+        ws.sort();
+        ws.dedup();
+        for &w in &ws {
+            for fill in 0..4 {
+                let mut words: Vec<u32> = vec![c as u32];
+                for i in 0..w {
+                    let is_offset = i < c - 1;
+                    words.push(match (fill, is_offset) {
+                        (0, _) => 0,
+                        (1, true) => 0,
+                        (1, false) => known[0],
+                        (2, true) => 0,
+                        (2, false) => known[(i - (c - 1)) % known.len()],
+                        (_, true) => (4 * i) as u32,
+                        (_, false) => known[(i - (c - 1)) % known.len()],
+                    });
+                }
+                record(ctx, which, st, "big-count", &words_to_bytes(&words));
+                n += 1;
+            }
+        }
+    }
+    n
+}
+
 fn family_truncations(ctx: &Ctx, which: Which, st: &Stats, every_byte: bool) -> u64 {
     let mut total = 0;
     for (_, base) in corpus() {
@@ -664,6 +700,7 @@ pub fn run(ctx: &Ctx, which: Which) -> Result<(), String> {
         fam.insert(format!("short_bytes_len_0_to_11{}", sfx), json!(family_short_bytes(ctx, which, &st, if full { 11 } else { 9 })));
         fam.insert(format!("header_word_deviations{}", sfx), json!(family_deviations(ctx, which, &st, full)));
         fam.insert(format!("offset_grids{}", sfx), json!(family_offset_grids(ctx, which, &st)));
+        fam.insert(format!("big_counts{}", sfx), json!(family_big_counts(ctx, which, &st)));
         fam.insert(format!("truncations_extensions{}", sfx), json!(family_truncations(ctx, which, &st, full)));
         if which == Which::C06 {
             fam.insert(format!("every_length_x4_fills{}", sfx), json!(family_lengths(ctx, &st, full)));
